@@ -152,8 +152,10 @@ orc_sse_set_mxcsr (OrcCompiler *compiler)
 void
 orc_sse_restore_mxcsr (OrcCompiler *compiler)
 {
+  /* the caller's MXCSR was saved in params[ORC_VAR_C1]; params[ORC_VAR_A4]
+   * holds the modified copy (DAZ|FTZ set) */
   orc_x86_emit_cpuinsn_load_memoffset (compiler, ORC_X86_ldmxcsr, 4, 0,
-      (int)ORC_STRUCT_OFFSET(OrcExecutor,params[ORC_VAR_A4]),
+      (int)ORC_STRUCT_OFFSET(OrcExecutor,params[ORC_VAR_C1]),
       compiler->exec_reg, 0);
 }
 
